@@ -131,6 +131,9 @@ impl<T: Tweenable> Parameter<T> {
 			if !started {
 				return false;
 			}
+			// once begun, a tween runs on audio time: it must not stall if the
+			// clock it was scheduled on pauses or disappears afterwards
+			tween.start_time = StartTime::Immediate;
 			*time += dt;
 			if *time >= tween.duration.as_secs_f64() {
 				if matches!(target, Value::Fixed(_)) {
